@@ -592,10 +592,19 @@ func loModule(L *LState) int {
 	return 1
 }
 
-var loopdetection = &LUserData{}
+// loopSentinel returns the value that marks a module as being loaded in package.loaded. A program
+// can reach it there (and give it a metatable through the debug library), so every state has its
+// own, made like any other userdata, and states running in different goroutines share nothing.
+func loopSentinel(L *LState) *LUserData {
+	if L.G.loopdetection == nil {
+		L.G.loopdetection = &LUserData{Env: L.G.Global, Metatable: LNil}
+	}
+	return L.G.loopdetection
+}
 
 func loRequire(L *LState) int {
 	name := L.CheckString(1)
+	loopdetection := loopSentinel(L)
 	loaded := L.GetField(L.Get(RegistryIndex), "_LOADED")
 	lv := L.GetField(loaded, name)
 	if LVAsBool(lv) {
